@@ -8,6 +8,7 @@ import (
 	"time"
 
 	ipfslog "berty.tech/go-ipfs-log"
+	"berty.tech/go-ipfs-log/iface"
 
 	"verifharness/evid"
 	"verifharness/hx"
@@ -280,6 +281,17 @@ func c13Bounded(run *evid.Run, i int, j *Journal) {
 				_ = s.L.Heads()
 				_ = s.L.GetEntries()
 				_ = s.L.ToSnapshot()
+				_ = s.L.ToJSONLog()
+				_, _ = s.L.ToMultihash(s.w.Ctx)
+				ch := make(chan iface.IPFSLogEntry, 4096)
+				_ = s.L.Iterator(&iface.IteratorOptions{}, ch)
+				for _, e := range s.L.Values().Slice() {
+					if e != nil {
+						_, _ = s.L.Get(e.GetHash())
+						_ = s.L.Has(e.GetHash())
+						break
+					}
+				}
 			}
 		}
 	})
